@@ -31,6 +31,16 @@ M = {
    "	pubKey, err := verifyAuthClaim(reg, purposeChannelBinding, respHello.KeyX509, cb, respHello.Sig)\n	if err != nil {\n		return nil, err\n	}", "	pubKey, err := verifyAuthClaim(reg, purposeChannelBinding, respHello.KeyX509, cb, respHello.Sig)\n	if err != nil {\n		pk2, err2 := x509.ParsePublicKey(respHello.KeyX509)\n		if err2 != nil || len(respHello.Sig) != 64 {\n			return nil, err\n		}\n		pubKey = publicKey{Registry: reg, Key: pk2}\n	}")],
  "c03-early-data-gate-removed": [("p/p2pke/session.go",
    "		if !s.canReceive() {\n			return false, nil, ErrEarlyData{State: s.hsIndex, Nonce: nonce}\n		}", "		if s.cipherIn == nil {\n			return false, nil, ErrEarlyData{State: s.hsIndex, Nonce: nonce}\n		}")],
+ "c05-checkkey-accepts-when-no-key-yet": [("p/p2pke/channel.go",
+   "	} else if c.remoteKey.IsZero() && c.params.AcceptKey(pubKey) {\n		return nil\n	}", "	} else if c.remoteKey.IsZero() {\n		return nil\n	}")],
+ "c05-onready-without-same-key-comparison": [("p/p2pke/channel.go",
+   "	if !c.remoteKey.IsZero() && !x509.EqualPublicKeys(&c.remoteKey, &sessRemote) {\n		c.setNext(sessionEntry{})\n		return errors.New(\"session negotiated with wrong peer\")\n	}", ""),
+   ("p/p2pke/channel.go", "	if err := c.checkKey(&sessRemote); err != nil {\n		c.setNext(sessionEntry{})\n		return err\n	}", "	if c.remoteKey.IsZero() && !c.params.AcceptKey(&sessRemote) {\n		c.setNext(sessionEntry{})\n		return errors.New(\"key rejected\")\n	}")],
+ "c05-initiator-not-key-checked": [("p/p2pke/channel.go",
+   "	if err := c.checkKey(&sessRemote); err != nil {\n		c.setNext(sessionEntry{})\n		return err\n	}\n", "")],
+ "c05-appdata-before-promotion": [("p/p2pke/channel.go",
+   "			if isApp {\n				appData = out\n				return nil, nil\n			}\n", ""),
+   ("p/p2pke/channel.go", "			// if the session became ready, then make it the current and notify.", "			if isApp {\n				appData = out\n				return nil, nil\n			}\n			// if the session became ready, then make it the current and notify.")],
  "c06-initiator-counter-not-set-at-resphello": [("p/p2pke/session.go",
    "		s.nonce = noncePostHandshake\n		s.hsIndex = 2", "		s.hsIndex = 2")],
  "c06-initdone-accepted-in-any-state": [("p/p2pke/session.go",
